@@ -98,7 +98,7 @@ def _cmp_with_const(b, op, ops, const):
         return False
     for d in b.defs().get(l, []):
         if d[0] == "stmt" and d[3]["k"] == "assign" and d[3]["rv"]["k"] == "bin" and d[3]["rv"]["op"] in ops:
-            if const in (op_const_val(d[3]["rv"]["a"]), op_const_val(d[3]["rv"]["b"])):
+            if const in (op_const_deep(b, d[3]["rv"]["a"]), op_const_deep(b, d[3]["rv"]["b"])):
                 return True
     return False
 
